@@ -28,6 +28,14 @@ SRC = ["SimpleSource", "IslandSource", "ComponentSource"]
 
 
 MUTANTS = [
+    ("empty type ends the sqlite loop", "AegeanTools/catalogs.py",
+     "            continue  # don't write empty tables",
+     "            break  # don't write empty tables", "C18-R9"),
+    ("islands written only when there are components",
+     "AegeanTools/catalogs.py",
+     "    if len(islands) > 0:\n        new_name = \"{1}{0}{2}\".format('_isle'",
+     "    elif len(islands) > 0:\n        new_name = \"{1}{0}{2}\".format('_isle'",
+     "C18-R9"),
     ("base class tested first", "AegeanTools/models.py",
      "        if isinstance(source, ComponentSource):\n            "
      "components.append(source)\n        elif isinstance(source, "
@@ -259,6 +267,7 @@ def run(ctx):
                           "table names must follow (components, islands, "
                           "simples)", node=s)
     ctx.floor("C18-R2", n2, 4, "consumers of classify_catalog")
+    r9_independent(ctx, prog, cats)
     # ---------------------------------------------------------------- R3
     ctx.rule("C18-R3", "names ⊆ attributes assigned by the __init__ chain; "
              "as_list and the writer iterate `names`")
@@ -695,3 +704,94 @@ def r8_order(ctx, prog):
                   "of the catalogue" % [norm(b, 50) for b in bad[:3]],
                   node=bad[0] if bad else fi.node)
     ctx.floor("C18-R8", n, 6, "functions on the catalogue <-> table path")
+
+
+def r9_independent(ctx, prog, cats):
+    """each source type is written whatever the other types contain"""
+    ctx.rule("C18-R9", "the outputs per source type are independent: where "
+             "the classified lists are written in a loop, an empty type "
+             "skips only itself (no break / return in the loop); where they "
+             "are written one after the other, the write of one type is not "
+             "nested in (or chained by elif to) a test on another type and "
+             "no return sits between them")
+    n = 0
+    # the un-normalised tree: the loader inlines the local writer() closure
+    for q, fi in ctx.raw_prog().functions.items():
+        if fi.module != cats.name:
+            continue
+        # table writers only (annotation / region files are not catalogues)
+        sinks = [c for c in ast.walk(fi.node) if isinstance(c, ast.Call)
+                 and norm(c.func).split(".")[-1] in (
+                     "write", "writetoVO", "executemany", "writeFITSTable",
+                     "writeto")]
+        if not sinks:
+            continue
+        for s in walk_no_nested(fi.node):
+            loop = isinstance(s, ast.For) and any(
+                isinstance(c, ast.Call) and
+                norm(c.func) == "classify_catalog"
+                for c in ast.walk(s.iter))
+            if loop:
+                n += 1
+                bad = []
+
+                def scan(stmts, inner):
+                    for st in stmts:
+                        if isinstance(st, ast.Break) and not inner:
+                            bad.append(st)
+                        if isinstance(st, ast.Return):
+                            bad.append(st)
+                        for fld in ("body", "orelse", "finalbody",
+                                    "handlers"):
+                            sub = getattr(st, fld, None)
+                            if isinstance(sub, list):
+                                scan([x for x in sub
+                                      if isinstance(x, ast.stmt)] +
+                                     [y for x in sub
+                                      if isinstance(x, ast.ExceptHandler)
+                                      for y in x.body],
+                                     inner or isinstance(
+                                         st, (ast.For, ast.While)))
+                scan(s.body, False)
+                ctx.check("C18-R9", fi, "per-type loop " + norm(s.iter, 50),
+                          not bad, "`%s` inside the loop over the source "
+                          "types ends the loop for every LATER type: an "
+                          "empty earlier type (no components, say) "
+                          "suppresses the tables of the types after it" %
+                          (norm(bad[0]) if bad else ""),
+                          node=bad[0] if bad else s)
+            if isinstance(s, ast.Assign) and isinstance(s.value, ast.Call) \
+                    and norm(s.value.func) == "classify_catalog" and \
+                    isinstance(s.targets[0], ast.Tuple):
+                tg = [norm(e) for e in s.targets[0].elts]
+                parents = {}
+                for p_ in ast.walk(fi.node):
+                    for c_ in ast.iter_child_nodes(p_):
+                        parents[c_] = p_
+                for c in walk_no_nested(fi.node):
+                    if not (isinstance(c, ast.Call) and c.lineno > s.lineno):
+                        continue
+                    used = [t for t in tg if any(
+                        norm(a) == t for a in list(c.args) +
+                        [k.value for k in c.keywords])]
+                    if len(used) != 1 or norm(c.func) == "len":
+                        continue
+                    n += 1
+                    others = set(tg) - set(used)
+                    anc, x = [], c
+                    while x in parents:
+                        x = parents[x]
+                        if isinstance(x, ast.If) and others & names_in(
+                                x.test):
+                            anc.append(x)
+                    rets = [r for r in walk_no_nested(fi.node)
+                            if isinstance(r, (ast.Return, ast.Break))
+                            and s.lineno < r.lineno < c.lineno]
+                    ctx.check("C18-R9", fi, "write of %s: %s" %
+                              (used[0], norm(c, 50)), not anc and not rets,
+                              "whether %s is written depends on %s" %
+                              (used[0], ("the test `%s` on another type" %
+                                         norm(anc[0].test, 40)) if anc else
+                               ("an earlier `%s`" % norm(rets[0])) if rets
+                               else ""), node=c)
+    ctx.floor("C18-R9", n, 3, "per-type write sites")
